@@ -31,10 +31,14 @@ def type_table():
         "empty-classvar": ("tunable([])", [], [[], [0.5], [1.0, 2.0]], "double[]"),
         "empty-annotated": ("tunable([])", [], [[], ["s"], ["a", "b"]], "string[]"),
         "tuple": ("tunable((1.0, 2.0))", (1.0, 2.0), [(1.0, 2.0), (3.0,), (0.0, 0.0, 0.0)], "double[]"),
+        # the type hint decides although the default alone would say otherwise
+        "hinted-float": ("tunable[float](3)", 3, [3.0, -2.25, 0.5], "double"),
+        "annot-float": ("tunable(0)", 0, [0.0, 0.25, -7.5], "double"),
+        "hinted-floats": ("tunable[Sequence[float]]([0, 1])", [0, 1], [[0.0, 1.0], [2.5], [1.0, 2.0, 4.0]], "double[]"),
     }
 
 
-ANNOT = {"empty-classvar": "ClassVar[tunable[Sequence[float]]]", "empty-annotated": "tunable[Sequence[str]]"}
+ANNOT = {"empty-classvar": "ClassVar[tunable[Sequence[float]]]", "empty-annotated": "tunable[Sequence[str]]", "annot-float": "float"}
 
 
 def norm(v):
@@ -53,7 +57,7 @@ def norm(v):
     return v
 
 
-def build_class(tname, wd=True, sub=None, attr="val"):
+def build_class(tname, wd=True, sub=None, attr="val", hier="flat"):
     import magicbot
     from collections.abc import Sequence
     from typing import ClassVar
@@ -68,7 +72,13 @@ def build_class(tname, wd=True, sub=None, attr="val"):
     src = src[:-1] + opts + ")"
     ann = f": {ANNOT[tname]}" if tname in ANNOT else ""
     code = f"class T:\n    {attr}{ann} = {src}\n    other = tunable(0.125)\n"
-    g = dict(tunable=magicbot.tunable, Rotation2d=Rotation2d, Sequence=Sequence, ClassVar=ClassVar)
+    if hier == "inherited":
+        # the tunable is defined on a base class only
+        code = code.replace("class T:", "class B:") + "class T(B):\n    pass\n"
+    elif hier == "override":
+        # a base class defines a tunable of the same name and type with another default; the subclass definition is in effect
+        code = f"class B:\n    {attr} = tunable(_base_default{opts})\n" + code.replace("class T:", "class T(B):")
+    g = dict(tunable=magicbot.tunable, Rotation2d=Rotation2d, Sequence=Sequence, ClassVar=ClassVar, _base_default=_alpha[2])
     exec(code, g)
     return g["T"], code
 
@@ -134,7 +144,7 @@ def part1(res):
     tt = type_table()
     inst = env.nt()
     n = 0
-    for tname, owner, sub, wd, pre in itertools.product(tt, ("components", "autonomous", "robot"), (None, "s"), (True, False), (False, True)):
+    for tname, owner, sub, wd, pre, hier in itertools.product(tt, ("components", "autonomous", "robot"), (None, "s"), (True, False), (False, True), ("flat", "inherited", "override")):
         n += 1
         obj = prepub = sub_ = topic = None
         if n % 100 == 1:
@@ -143,12 +153,12 @@ def part1(res):
         _src, default, alpha, ts = tt[tname]
         name = f"n{n}"
         path = expected_key(owner, name, sub, "val")
-        rp = dict(engine="nt", part=1, type=tname, owner=owner, subtable=sub, writeDefault=wd, preexisting=pre)
-        case = f"{tname} owner={owner} subtable={sub} writeDefault={wd} pre-existing={pre}"
+        rp = dict(engine="nt", part=1, type=tname, owner=owner, subtable=sub, writeDefault=wd, preexisting=pre, hierarchy=hier)
+        case = f"{tname} owner={owner} subtable={sub} writeDefault={wd} pre-existing={pre} class-hierarchy={hier}"
         res.executions += 1
         res.checks += 1
         try:
-            cls, code = build_class(tname, wd, sub)
+            cls, code = build_class(tname, wd, sub, hier=hier)
             prepub = None
             if pre:
                 prepub = publish(typed_topic(inst, path, tname), tname)
@@ -169,7 +179,7 @@ def part1(res):
             got_nt = sub_.get()
             got_py = obj.val
             if norm(got_nt) != norm(exp) or norm(got_py) != norm(exp):
-                res.violation(f"setup-value:writeDefault={wd}:pre={pre}", f"{case}: after setup NT holds {got_nt!r}, attribute reads {got_py!r}, expected {exp!r}", rp)
+                res.violation(f"setup-value:writeDefault={wd}:pre={pre}" + ("" if hier == "flat" else f":{hier}"), f"{case}: after setup NT holds {got_nt!r}, attribute reads {got_py!r}, expected {exp!r}", rp)
             sub_.close()
             if prepub is not None:
                 prepub.close()
